@@ -400,6 +400,14 @@ func (g *cgraph) define(v ssa.Value, depth int) {
 		if x.Op == token.MUL {
 			g.defineLoad(x, key)
 		}
+	case *ssa.Index:
+		// element of the copy of a constant package-level integer array (range over the array value)
+		if gl, _, ok := globalTableLookup(x); ok {
+			if lo, hi, ok := a.globalIntArray(gl); ok {
+				g.le(key, zeroTerm, hi)
+				g.le(zeroTerm, key, -lo)
+			}
+		}
 	case *ssa.Parameter:
 		g.defineParam(x, key)
 	case *ssa.TypeAssert:
